@@ -99,7 +99,7 @@ class C03(Prop):
             'W in {1,2,3,4,6,8} simulated ranks with every divisor as gradient-worker count, both methods, hook/no-hook, bucketed/unbucketed, '
             'symmetric/dense, constant or table-driven intervals incl. non-multiples, plus (kind "gpt") GPT-NeoX programs over pipe x data x model '
             'topologies with in-memory and directory checkpoints on DeepSpeed/Megatron doubles; every rank thread runs the whole program with no '
-            'barrier in between and the rank interleaving + async buffer timing are drawn. Oracle: the six monitors of vkit/simdist (mismatch of '
+            'barrier in between and the rank interleaving + async buffer timing are drawn. Plus a systematic part (kind "preempt"): for four fixed small configurations every schedule that deviates from the default (lowest runnable rank first) at one position among the first 36 (quick) / one or two positions among the first 60 (thorough) schedule points is enumerated (bounded-preemption search). Oracle: the six monitors of vkit/simdist (mismatch of '
             'kind/shape/dtype/root, non-member communication, new_group order, deadlock, incomplete operation, exception on a valid program). '
             'Non-trivial: W >= 2, >= 2 groups carried traffic, and the program contains a non-inverse-update step, a load, an eval pass between '
             'train passes, or a subset-of-ranks query.')
@@ -111,6 +111,63 @@ class C03(Prop):
     required_labels = {'quick': ['nontrivial=True', 'has_load=True', 'subset_query=True', 'strategy=HYBRID', 'kind=gpt', 'kind=kaisa'],
                        'thorough': ['nontrivial=True', 'has_load=True', 'subset_query=True', 'strategy=HYBRID', 'strategy=MEM', 'strategy=COMM']}
 
+    enum_shards = {'quick': 4, 'thorough': 16}
+
+    # -- bounded-preemption enumeration of schedules (systematic, complements the random schedules) -------------
+    PREEMPT_CONFIGS = [
+        # (W, k, method, cap, in_hook, fus, ius, program kinds)
+        (2, 2, 'eigen', 25.0, True, 1, 2, ['train', 'train', 'load', 'train']),
+        (4, 2, 'inverse', 0, False, 2, 1, ['train', 'state_dict:0', 'train', 'load', 'train']),
+        (3, 1, 'eigen', 1e-5, True, 1, 3, ['train', 'eval', 'train', 'memory_usage:1', 'train']),
+        (4, 4, 'eigen', 25.0, True, 1, 1, ['train', 'load', 'train']),
+    ]
+
+    def enumerate(self, tier, shard, nshards):
+        K = 36 if tier == 'quick' else 60
+        vals = (1, 2) if tier == 'quick' else (1, 2, 3)
+        i = 0
+        for ci in range(len(self.PREEMPT_CONFIGS)):
+            devsets = [[]] + [[[p, v]] for p in range(K) for v in vals]
+            if tier == 'thorough':
+                devsets += [[[p, v], [q, w]] for p in range(0, K, 2) for q in range(p + 1, K, 3) for v in (1, 2) for w in (1, 3)]
+            for devs in devsets:
+                if i % nshards == shard:
+                    yield {'kind': 'preempt', 'config': ci, 'devs': devs, 'K': K}
+                i += 1
+
+    def _preempt(self, case):
+        from vkit import kaisa
+        W, k, method, cap, in_hook, fus, ius, kinds = self.PREEMPT_CONFIGS[case['config']]
+        spec = {'seed': 4, 'input': {'in': 3, 'lead': []}, 'layers': [
+            {'t': 'linear', 'in': 3, 'out': 4, 'bias': True, 'sub': False}, {'t': 'act', 'name': 'tanh'},
+            {'t': 'linear', 'in': 4, 'out': 2, 'bias': False, 'sub': False}]}
+        prog = []
+        for n, kd in enumerate(kinds):
+            name, _, arg = kd.partition(':')
+            if name == 'train':
+                prog.append({'op': 'train', 'seed': n})
+            elif name == 'eval':
+                prog.append({'op': 'eval', 'seed': n})
+            elif name == 'load':
+                prog.append({'op': 'load', 'compute_inverses': True, 'include_factors': True})
+            else:
+                prog.append({'op': name, 'ranks': [int(arg)]})
+        kc = {'W': W, 'k': k, 'fraction': 'float', 'colocate': True, 'heuristic': 'compute', 'cap': cap, 'symmetry': method == 'inverse',
+              'method': method, 'prediv': method == 'eigen', 'spec': spec, 'in_hook': in_hook, 'accum': 1, 'N': 2,
+              'hp': {'factor_update_steps': fus, 'inv_update_steps': ius, 'damping': 0.01, 'factor_decay': 0.9, 'kl_clip': 1e-3, 'lr': 0.1}}
+        sched = [0] * case['K']
+        for p, v in case['devs']:
+            sched[p] = v
+        res = kaisa.run_sim(kc, prog, sched, False)
+        labels = {'kind': 'preempt', 'W': W, 'ndev': len(case['devs'])}
+        if res.timed_out:
+            raise RuntimeError('simulation timed out (harness)')
+        if not res.ok:
+            v = res.violations[0]
+            return violation(f'{v} :: bounded-preemption schedule {case["devs"]} on config {self.PREEMPT_CONFIGS[case["config"]]}', 'protocol:' + v.kind, labels=labels)
+        labels['nontrivial'] = W >= 2 and res.groups_used >= 2
+        return passed(labels['nontrivial'], labels, {'switches': res.switches})
+
     def strategy(self, tier):
         worlds = [1, 2, 2, 3, 4, 4, 6, 8] if tier == 'quick' else [1, 2, 3, 4, 4, 6, 8, 8, 12]
         return st.one_of(_kaisa_case(worlds), _kaisa_case(worlds), _gpt_case())
@@ -118,6 +175,8 @@ class C03(Prop):
     def run_case(self, case):
         if case['kind'] == 'kaisa':
             return self._kaisa(case)
+        if case['kind'] == 'preempt':
+            return self._preempt(case)
         return self._gpt(case)
 
     def _gpt(self, case):
